@@ -245,6 +245,8 @@ pub fn gen_fits64_samples(rng: &mut Rng, n: usize, k: usize, prefix: &str) -> Ve
 pub fn gen_weed_fasta(rng: &mut Rng, samples: &[Sample], k: usize) -> String {
     let mut out = String::new();
     let nrec = rng.range(1, 3);
+    // FASTA ids need not be unique: sometimes every record has the same first word
+    let same_id = rng.chance(25);
     for i in 0..nrec {
         let mode = rng.below(10);
         let seq: Vec<u8> = if mode == 0 {
@@ -272,7 +274,8 @@ pub fn gen_weed_fasta(rng: &mut Rng, samples: &[Sample], k: usize) -> String {
         if !seq.windows(k + 2).any(|w| w.iter().all(|b| *b != b'N')) {
             seq = rng.dna(k + 2);
         }
-        out.push_str(&wrap_fasta(&format!("w{i}"), &seq, *rng.pick(&[0usize, 60])));
+        let id = if same_id { format!("plasmid part{i}") } else { format!("w{i}") };
+        out.push_str(&wrap_fasta(&id, &seq, *rng.pick(&[0usize, 60])));
     }
     out
 }
